@@ -62,12 +62,55 @@ def _col_diff(a, b):
     return max(d, abs(a[3] - b[3]) * 255.0)
 
 
+class _Faded:
+    """a fill seen through an opacity factor"""
+
+    def __init__(self, fill, alpha):
+        self.fill, self.alpha, self.kind = fill, alpha, fill.kind
+
+    def at(self, p):
+        c = self.fill.at(p)
+        if c is None:
+            return None
+        if c[0] == "fg":
+            return ("fg", c[1] * self.alpha)
+        return (c[0], c[1], c[2], c[3] * self.alpha)
+
+
+def fold_singleton_groups(layers):
+    """Group opacity over exactly one layer IS that layer's opacity (SRC_OVER of a single source): fold such groups into
+    the fill so that <g opacity=a><path/></g> and <path opacity=a/> compare equal.  Works on copies."""
+    import copy
+
+    count = {}
+    for L in layers:
+        for gid, _a in L.groups:
+            count[gid] = count.get(gid, 0) + 1
+    out = []
+    for L in layers:
+        keep, alpha = [], 1.0
+        for gid, a in L.groups:
+            if count[gid] == 1:
+                alpha *= a
+            else:
+                keep.append((gid, a))
+        if alpha != 1.0 or len(keep) != len(L.groups):
+            L2 = copy.copy(L)
+            L2.groups = tuple(keep)
+            L2.fill = _Faded(L.fill, alpha) if alpha != 1.0 else L.fill
+            out.append(L2)
+        else:
+            out.append(L)
+    return out
+
+
 def compare(expected, produced, delta, grid=20, bounds=None, ctx=""):
     """expected: [oracle_svg.SvgLayer]; produced: [Produced].  delta: geometric tolerance in font units, may be a
     list (one per expected layer).  Returns list of problem strings (empty = same picture)."""
     problems = []
     if len(expected) != len(produced):
         return [f"{ctx}layer count: expected {len(expected)}, produced {len(produced)}"]
+    expected, produced = fold_singleton_groups(expected), fold_singleton_groups(produced)
     eg = _canon_groups([L.groups for L in expected])
     pg = _canon_groups([L.groups for L in produced])
     for i, (a, b) in enumerate(zip(eg, pg)):
